@@ -568,7 +568,7 @@ def rule_bounds_binding(ctx: Ctx, rid: str):
             for pname, fld in (('lowerBoundOfFloatVariables', 'lowerBoundOfFloatVariables'),
                                ('upperBoundOfFloatVariables', 'upperBoundOfFloatVariables'),
                                ('numberOfFloatVariables', 'numberOfFloatVariables')):
-                got = bound.get(pname)
+                got = C.through_value_copies(p, bound.get(pname))
                 ok = got is not None and key_of(got) == key_of(attr(prob, fld))
                 ctx.check(ok, rid, si.short, si.loc(ne.node), f'Evolvent({pname}=problem.{fld})',
                           f'the solver passes {C.fmt(got)} as the evolvent\'s {pname}; expected problem.{fld}',
